@@ -762,6 +762,28 @@ protected:
                 {
                     outputNewline();
                 }
+                else if (XalanUnicode::charCR == theChar)
+                {
+                    // A literal CR would be normalized to LF when the
+                    // result is parsed, and a character reference is
+                    // not recognized inside a CDATA section, so write
+                    // the reference between two sections.
+                    if (outsideCDATA == false)
+                    {
+                        m_writer.write(
+                            m_constants.s_cdataCloseString,
+                            m_constants.s_cdataCloseStringLength);
+                    }
+
+                    writeNumericCharacterReference(theChar);
+
+                    if (outsideCDATA == false)
+                    {
+                        m_writer.write(
+                            m_constants.s_cdataOpenString,
+                            m_constants.s_cdataOpenStringLength);
+                    }
+                }
                 else if(m_charPredicate.isCharRefForbidden(theChar))
                 {
                      throwInvalidXMLCharacterException(
